@@ -105,8 +105,10 @@ func (c *Client) Ping(quit <-chan struct{}) error {
 	done := make(chan error, 1)
 	select {
 	case c.pingAck <- done:
+		verifYield("ping.slot")
 		break // OK
 	default:
+		verifYield("ping.max")
 		return fmt.Errorf("%w; PING unavailable", ErrMax)
 	}
 
@@ -116,6 +118,7 @@ func (c *Client) Ping(quit <-chan struct{}) error {
 		case <-c.pingAck: // unlock
 		default: // picked up by unrelated pong
 		}
+		verifYield("ping.clean")
 		if errors.Is(err, ErrSubmit) {
 			return fmt.Errorf("%w; PING in limbo", err)
 		}
@@ -124,12 +127,16 @@ func (c *Client) Ping(quit <-chan struct{}) error {
 
 	select {
 	case err := <-done:
+		verifYield("ping.done")
 		return err
 	case <-quit:
+		verifYield("ping.quit")
 		select {
 		case <-c.pingAck: // unlock
+			verifYield("ping.unslot")
 			return fmt.Errorf("%w; PING not confirmed", ErrAbandoned)
 		default: // picked up in mean time
+			verifYield("ping.late")
 			return <-done
 		}
 	}
@@ -141,6 +148,7 @@ func (c *Client) onPINGRESP() error {
 	}
 	select {
 	case ack := <-c.pingAck:
+		verifYield("pong.slot")
 		close(ack)
 	default:
 		break // tolerates wandering pong
@@ -333,8 +341,10 @@ func (c *Client) subscribeLevel(quit <-chan struct{}, topicFilters []string, lev
 
 	select {
 	case err := <-done:
+		verifYield("sub.done")
 		return err
 	case <-quit:
+		verifYield("sub.quit")
 		c.unorderedTxs.endTx(packetID) // releases slot
 		return fmt.Errorf("%w; SUBSCRIBE not confirmed", ErrAbandoned)
 	}
@@ -446,8 +456,10 @@ func (c *Client) Unsubscribe(quit <-chan struct{}, topicFilters ...string) error
 
 	select {
 	case err := <-done:
+		verifYield("unsub.done")
 		return err
 	case <-quit:
+		verifYield("unsub.quit")
 		c.unorderedTxs.endTx(packetID) // releases slot
 		return fmt.Errorf("%w; UNSUBSCRIBE not confirmed", ErrAbandoned)
 	}
@@ -582,8 +594,10 @@ func (c *Client) submitPersisted(packet net.Buffers, out outbound) (exchange <-c
 	if !ok {
 		return nil, ErrClosed
 	}
+	verifYield("q.seq")
 	defer func() {
 		out.seqSem <- seq // unlock with updated
+		verifYield("q.unseq")
 	}()
 
 	hasBacklog := seq.submitN < seq.acceptN
@@ -594,6 +608,7 @@ func (c *Client) submitPersisted(packet net.Buffers, out outbound) (exchange <-c
 		return nil, err
 	}
 	seq.acceptN++
+	verifYield("q.saved")
 
 	// submit
 	if hasBacklog {
